@@ -220,6 +220,10 @@ def gen_interleave(rng):
         victim = rng.randrange(ntasks)
         tasks[victim]["cancel_at"] = rng.randint(1, 60)
         spec["faults"] = [{"kind": "cancel", "task": victim, "at": tasks[victim]["cancel_at"]}]
+    if rng.random() < 0.15:
+        # one thread: each task runs to completion inside a token-read gap of its predecessor (a caller that re-enters the library)
+        cfg["nest"] = [rng.getrandbits(16) for _ in range(ntasks - 1)]
+        cfg["policy"] = "nested"
     return spec
 
 
